@@ -267,8 +267,14 @@ func sizeScenarios(run *rep.Run) {
 					run.Count("size_cases", 1)
 					wit := map[string]any{"engine": eng, "route": route, "encoding": enc, "body_bytes": len(body), "limit": limit, "client_status": res.Status, "client_body": res.BodyHead, "reached_backend": got != nil}
 					if len(body) > limit {
-						if got != nil && !strings.HasPrefix(route, "anthropic-translated") && got.BodyLen > limit {
-							run.Violation("C17/oversize-body-forwarded/"+route+"/"+enc, fmt.Sprintf("a %d-byte %s body passed the %d-byte limit and reached the backend (%d bytes)", len(body), enc, limit, got.BodyLen), wit)
+						if got != nil && !strings.HasPrefix(route, "anthropic-translated") {
+							// any dispatch of an over-limit request counts, also one whose upload is cut at the limit
+							how := "in full"
+							if got.BodyLen < len(body) {
+								how = "partially"
+							}
+							wit["backend_body_bytes"], wit["backend_body_err"] = got.BodyLen, got.BodyErr
+							run.Violation("C17/oversize-body-forwarded/"+route+"/"+enc, fmt.Sprintf("a %d-byte %s body is above the %d-byte limit, yet the request was dispatched and reached the backend %s (%d bytes)", len(body), enc, limit, how, got.BodyLen), wit)
 						}
 						if got != nil && route == "anthropic-translated" {
 							run.Violation("C17/oversize-body-forwarded/"+route+"/"+enc, fmt.Sprintf("a %d-byte Anthropic request above max_message_size %d was translated and forwarded", len(body), limit), wit)
